@@ -696,7 +696,12 @@ pub fn c14(tier: Tier) -> i32 {
                 // the resolved directory does not exist: the property does not say whether that is an error or an
                 // empty analysis, only that no OTHER directory is analysed instead
                 let names: Vec<String> = rep.as_ref().map(|r| report::parse_report(r, &tb).entries.values().flatten().map(|e| crate::fsx::base_name(&e.0)).collect()).unwrap_or_default();
-                if !names.is_empty() {
+                // (a build that accepts a single file as --path analyses exactly what --path names: findings of that file are fine)
+                let named_file: Option<&str> = match (flag, tomlp) {
+                    (Some(f), _) if f.ends_with(".sol") => f.rsplit('/').next(),
+                    _ => None,
+                };
+                if names.iter().any(|n| Some(n.as_str()) != named_file) {
                     run.violation(Violation {
                         site: "binary:directory:another-directory-analysed-instead-of-the-missing-one".into(),
                         input: label,
